@@ -192,7 +192,7 @@ impl PaymentAmount {
 
     pub(crate) fn to_scalar(self) -> Scalar {
         if self.0.is_negative() {
-            Scalar::zero() - Scalar::from(self.0.abs() as u64)
+            Scalar::zero() - Scalar::from(self.0.unsigned_abs())
         } else {
             Scalar::from(self.0 as u64)
         }
